@@ -732,17 +732,18 @@ func ruleC11_8(c *Ctx) {
 }
 
 // statusesAlwaysApplied: the sequence of statuses a helper applies when it applies the same sequence on every path.
-var statusHelperMemo = map[*ssa.Function][]string{}
-
 func (an *Analysis) statusesAlwaysApplied(fn *ssa.Function, depth int) (res []string) {
 	if depth > 3 || len(fn.Blocks) == 0 {
 		return nil
 	}
-	if v, ok := statusHelperMemo[fn]; ok {
+	if an.statusMemo == nil {
+		an.statusMemo = map[*ssa.Function][]string{}
+	}
+	if v, ok := an.statusMemo[fn]; ok {
 		return v
 	}
-	statusHelperMemo[fn] = nil
-	defer func() { statusHelperMemo[fn] = res }()
+	an.statusMemo[fn] = nil
+	defer func() { an.statusMemo[fn] = res }()
 	// only helpers that can apply a status at all
 	if !an.May("STATUS-APPLY", fn, func(in ssa.Instruction) bool { return an.CallsRole(in, "statusApply") }, false) {
 		return nil
